@@ -26,6 +26,7 @@ import Hdl21Model.Props.C07
 import Hdl21Model.Props.C03
 import Hdl21Model.Lemmas.PortRefs
 import Hdl21Model.Lemmas.ConnTypes
+import Hdl21Model.Lemmas.Orphanage
 namespace Hdl21.Props.C02
 open Hdl21 Hdl21.Runner
 
@@ -127,5 +128,56 @@ example : passes [("p", 1), ("n", 2)] [("n", .sig "b" 2), ("p", .slice (.sig "b"
     passes [("p", 1)] [("p", .sig "b" 2)] = false ∧
     passes [("p", 1)] [("p", .sig "a" 1), ("q", .sig "a" 1)] = false := by decide
 end ConnTypes
+
+/-! ## the ownership check (`Orphanage`) as a pass: when exactly it lets a module through -/
+section Ownership
+open Hdl21.Orphanage
+
+/-- **`Orphanage` returns exactly when** every entry of the module's namespace is parented by the module and filed under its own
+    name, and everything any connection of any instance, array or instance bundle is made of — the Signal or BundleInstance
+    itself, the parent of a Slice, each part of a Concat, each member of an AnonymousBundle, the instance behind a PortRef, the
+    root bundle behind a BundleRef — is parented by the module. (`owners` is the flat, declarative reading of a connectable;
+    `passes` is the recursive check the code runs.) -/
+theorem orphanage_passes_iff (me : Nat) (m : OModule) :
+    Orphanage.passes me m = true ↔
+      (∀ a ∈ m.attrs, a.owner = some me ∧ a.key = a.name) ∧ (∀ c ∈ m.conns, ∀ o ∈ owners c, o = some me) := by
+  unfold Orphanage.passes
+  simp only [Bool.and_eq_true, List.all_eq_true, beq_iff_eq]
+  constructor
+  · rintro ⟨ha, hc⟩
+    exact ⟨ha, fun c hcm => (checkConn_iff me c).mp (hc c hcm)⟩
+  · rintro ⟨ha, hc⟩
+    exact ⟨ha, fun c hcm => (checkConn_iff me c).mpr (hc c hcm)⟩
+
+/-- A signal, bundle or instance owned by nobody or by another module — anywhere inside a connection, however deep in slices,
+    concatenations and anonymous bundles — makes it raise; so does a namespace entry parented elsewhere or filed under
+    another name than its own. -/
+theorem orphanage_rejects (me : Nat) (m : OModule)
+    (hbad : (∃ c ∈ m.conns, ∃ o ∈ owners c, o ≠ some me) ∨ (∃ a ∈ m.attrs, a.owner ≠ some me ∨ a.key ≠ a.name)) :
+    Orphanage.passes me m = false := by
+  rw [Bool.eq_false_iff]
+  intro h
+  obtain ⟨ha, hc⟩ := (orphanage_passes_iff me m).mp h
+  rcases hbad with ⟨c, hcm, o, ho, hne⟩ | ⟨a, ham, hne⟩
+  · exact hne (hc c hcm o ho)
+  · rcases hne with h1 | h2
+    · exact h1 (ha a ham).1
+    · exact h2 (ha a ham).2
+
+/-- A no-connect is parented by nobody and is let through; a reference is judged by the instance (the root bundle) it refers to,
+    not by the port (member) named. -/
+theorem orphanage_exemptions (me : Nat) (p : String) (path : List String) :
+    checkConn me .noconn = true ∧ checkConn me (.pref (some me) p) = true ∧ checkConn me (.bref (some me) path) = true ∧
+    checkConn me (.pref none p) = false ∧ checkConn me (.bref (some (me + 1)) path) = false := by
+  simp [checkConn]
+
+/-- Non-vacuity: a module that passes; the same with a foreign signal three levels down; with an orphan instance behind a reference. -/
+example :
+    Orphanage.passes 7 ⟨[⟨"s", "s", some 7⟩], [.concat [.slice (.sig "s" 4 (some 7)) (.int 0), .anon [("x", .pref (some 7) "p")]], .noconn]⟩ = true ∧
+    Orphanage.passes 7 ⟨[⟨"s", "s", some 7⟩], [.concat [.sig "s" 4 (some 7), .anon [("x", .slice (.sig "t" 2 (some 8)) (.int 1))]]]⟩ = false ∧
+    Orphanage.passes 7 ⟨[⟨"s", "s", some 7⟩], [.pref none "p"]⟩ = false ∧
+    Orphanage.passes 7 ⟨[⟨"s", "t", some 7⟩], []⟩ = false := by decide
+
+end Ownership
 
 end Hdl21.Props.C02
